@@ -669,7 +669,9 @@ class _Env:
         tp.cfg, tp.downloader, tp.decompressor = self.cfg, loader.Downloader(self.case["offline"], self.case["test_mode"]), self.decompressor
         with warnings.catch_warnings():
             warnings.simplefilter("ignore")
-            for fn, params in tp.on_prepare_track(t, self.cache_root):
+            # as the driver's TrackPreparationActor does: collect all preparation tasks first, hand them out (and run them) afterwards
+            tasks = list(tp.on_prepare_track(t, self.cache_root))
+            for fn, params in tasks:
                 fn(**params)
 
     def write_initial_state(self):
